@@ -114,7 +114,7 @@ CLAIMED = {
            "carry the escaper its context needs (the exception list is empty after nine fix: commits). Tie: the real helpers are compared with the Lean functions on hostile and "
            "random strings; each field then receives a payload closing its context and generation must fail or yield the same declaration skeleton. "
            "struct_tag_one_token: the struct tag GenSchema.PrintTags writes (Go code, free text with --struct-tags description|example) is exactly one Go string literal for EVERY "
-           "tag list (model of strconv.Quote / CanBackquote, tied by correspondence with PrintTags and go/scanner); last_value_rule_is_unsafe; option sets x fields x payloads on generate model."),
+           "tag list (model of strconv.Quote / CanBackquote, tied by correspondence with PrintTags and go/scanner), and struct_tag_value: the literal evaluates to exactly the assembled tag text (unquote_quote); last_value_rule_is_unsafe; option sets x fields x payloads on generate model."),
   "note": ("Trusted: Lean kernel + audited axioms; vx extract (Sites.lean by marker rendering through the real generate command plumbing, go/scanner); go/parser; genlab. "
            "Modelled rather than verified: text/template execution and goimports (reached by running them); sites no marker reaches; junction characters between template literals "
            "and escaped values; targets other than server and client (cli, markdown) are not in the table yet."),
